@@ -672,7 +672,7 @@ class FX:
                         out[k] = _path_ast(k)   # an attribute bound differently on two branches: its own path names it
                     elif snap is not None and isinstance(snap.get(k), ast.Name) and snap[k].id == k:
                         out[k] = snap[k]        # normalisation of a symbolic parameter: stays symbolic
-                    elif cond is not None and len(norm(va)) + len(norm(vb)) < 120:
+                    elif cond is not None and len(norm(va)) + len(norm(vb)) < 200:
                         out[k] = ast.IfExp(test=copy.deepcopy(cond), body=copy.deepcopy(va), orelse=copy.deepcopy(vb))
                     elif is_attr:
                         out[k] = _path_ast(k)
@@ -820,8 +820,12 @@ class FX:
             self.numeric.add(targets[0].id)
             self.localdefs[targets[0].id] = val
             val = ast.Name(id=targets[0].id, ctx=ast.Load())
+        if len(targets) == 1 and isinstance(targets[0], ast.Name) and isinstance(val, (ast.DictComp, ast.SetComp)):
+            # a Python-level lookup table: keep its name
+            self.localdefs[targets[0].id] = val
+            val = ast.Name(id=targets[0].id, ctx=ast.Load())
         if len(targets) == 1 and isinstance(targets[0], ast.Name) and isinstance(val, ast.AST) and \
-                not isinstance(val, (ast.Name, ast.Constant)) and len(norm(val)) > 90:
+                not isinstance(val, (ast.Name, ast.Constant)) and len(norm(val)) > 90 and targets[0].id not in env:
             # long expression bound to a local: keep the local's name (readable IR), remember the definition
             self.localdefs[targets[0].id] = val
             val = ast.Name(id=targets[0].id, ctx=ast.Load())
